@@ -204,6 +204,8 @@ def worker_main(argv):
     check = load_check(prop)
     known = load_known(args["known"])
     modes = getattr(check, "MODES", [None])
+    mode_for = getattr(check, "mode_for", None)
+    tier = args.get("tier", "quick")
 
     stats = {
         "prop": prop, "fw": fw, "variant": variant, "windex": windex, "runs": 0, "steps": 0, "sim_time": 0.0,
@@ -216,7 +218,10 @@ def worker_main(argv):
     nmodes = len(modes)
     new_violation = None
     while stats["runs"] < max_runs and time.time() < deadline:
-        mode = modes[(i // nworkers) % nmodes] if nmodes > 1 else modes[0]
+        if mode_for is not None:
+            mode = mode_for(i, tier)
+        else:
+            mode = modes[(i // nworkers) % nmodes] if nmodes > 1 else modes[0]
         rs = run_seed(base_seed, prop, variant, i)
         if stats["first_seed"] is None:
             stats["first_seed"] = rs
